@@ -237,7 +237,7 @@ pub fn corr(ctx: &mut Ctx) {
         // item-wise + end_sketch
         for x in &stream {
             d.sketch(x);
-            ctx.op(&format!("dens sk{} a {}", sfx, hx(hash_with::<FnvHasher, u64>(x))));
+            ctx.op(&format!("dens sk{} a {}", sfx, fnv_tok(x)));
         }
         ctx.line(&format!("dens dump{} a", sfx), &d.dump());
         let before = d.parts();
@@ -269,7 +269,7 @@ pub fn corr(ctx: &mut Ctx) {
             let mut d2 = D::new(kind, m);
             let ok = d2.sketch_slice(&stream);
             ctx.op(&format!("dens new{} b {}", sfx, m));
-            ctx.line(&format!("dens slice{} b {} {}", sfx, alg, stream.iter().map(|x| hx(hash_with::<FnvHasher, u64>(x))).collect::<Vec<_>>().join(" ")), if ok { "ok" } else { "ERR" });
+            ctx.line(&format!("dens slice{} b {} {}", sfx, alg, stream.iter().map(|x| fnv_tok(x)).collect::<Vec<_>>().join(" ")), if ok { "ok" } else { "ERR" });
             ctx.line(&format!("dens dump{} b", sfx), &d2.dump());
             if d2.dump() != snap {
                 ctx.oracle_failure(serde_json::json!({"kind":"impl_violates_property","what":"sketch_slice differs from item-wise sketch + end_sketch","alg":alg,"m":m,"n":n}));
@@ -306,7 +306,7 @@ pub fn corr(ctx: &mut Ctx) {
                     let x = *ctx.rng.pick(&items);
                     d.sketch(&x);
                     streamed = true;
-                    ctx.op(&format!("dens sk{} a {}", sfx, hx(hash_with::<FnvHasher, u64>(&x))));
+                    ctx.op(&format!("dens sk{} a {}", sfx, fnv_tok(&x)));
                     ctx.count("op=sketch");
                 }
                 1 => {
@@ -323,7 +323,7 @@ pub fn corr(ctx: &mut Ctx) {
                     let ok = d.sketch_slice(&sl);
                     if k == 0 { ctx.count("op=sketch_slice(empty) after items"); }
                     streamed = true;
-                    ctx.line(&format!("dens slice{} a {} {}", sfx, alg, sl.iter().map(|x| hx(hash_with::<FnvHasher, u64>(x))).collect::<Vec<_>>().join(" ")), if ok { "ok" } else { "ERR" });
+                    ctx.line(&format!("dens slice{} a {} {}", sfx, alg, sl.iter().map(|x| fnv_tok(x)).collect::<Vec<_>>().join(" ")), if ok { "ok" } else { "ERR" });
                     ctx.count("op=sketch_slice");
                 }
                 _ => {
@@ -346,6 +346,7 @@ pub fn corr(ctx: &mut Ctx) {
                     ctx.oracle_failure(serde_json::json!({"kind":"impl_violates_property","what":"a view (float / u64 / u32) is not the image of the current sketch state after an operation sequence","alg":alg,"sfx":sfx,"m":m,
                         "u64_ok": v64.as_ref().ok() == Some(&values), "u32_ok": v32.as_ref().ok() == Some(&want32), "float_ok": fv.as_ref().ok() == Some(&fbits)}));
                 }
+                if let Ok(v) = &v32 { ctx.line(&format!("dens u32view{} a", sfx), &join(v)); }   // model: murmur3_32 of the stored hashes (Model/Hashers.lean)
                 ctx.count("views read after an operation");
             }
         }
@@ -379,10 +380,10 @@ pub fn corr(ctx: &mut Ctx) {
         b.sketch_slice(&[4017, 3472]);
         let alg = a.alg();
         ctx.op("dens new32 t 1");
-        ctx.op(&format!("dens slice32 t {} {} {}", alg, hx(hash_with::<FnvHasher, u64>(&3472u64)), hx(hash_with::<FnvHasher, u64>(&4017u64))));
+        ctx.op(&format!("dens slice32 t {} {} {}", alg, fnv_tok(&3472u64), fnv_tok(&4017u64)));
         ctx.line("dens dump32 t", &a.dump());
         ctx.op("dens new32 u 1");
-        ctx.op(&format!("dens slice32 u {} {} {}", alg, hx(hash_with::<FnvHasher, u64>(&4017u64)), hx(hash_with::<FnvHasher, u64>(&3472u64))));
+        ctx.op(&format!("dens slice32 u {} {} {}", alg, fnv_tok(&4017u64), fnv_tok(&3472u64)));
         ctx.line("dens dump32 u", &b.dump());
         if a.u64view() != b.u64view() {
             ctx.oracle_failure(serde_json::json!({"kind":"impl_violates_property","key":format!("dens-tie:{}:m=1:3472,4017",alg),
